@@ -1,0 +1,39 @@
+//go:build verif
+
+package edit
+
+import (
+	"src.elv.sh/pkg/cli"
+	"src.elv.sh/pkg/cli/tk"
+)
+
+// VerifIsSyntaxComplete exposes isSyntaxComplete (the criterion smart-enter
+// uses to decide between inserting a newline and submitting the code) to the
+// verification harness. Only compiled with the "verif" build tag.
+func VerifIsSyntaxComplete(code string) bool { return isSyntaxComplete(code) }
+
+// verifCommitRecorder is the editor's App with CommitCode replaced by a
+// recorder, so that smartEnter can be run without a running event loop.
+type verifCommitRecorder struct {
+	cli.App
+	committed *bool
+}
+
+func (a verifCommitRecorder) CommitCode() { *a.committed = true }
+
+// VerifSmartEnter puts buf into the editor's code area, runs the real
+// smartEnter (the implementation of edit:smart-enter, bound to Enter) and
+// returns the buffer afterwards and whether the code was submitted
+// (App.CommitCode was called). Only compiled with the "verif" build tag.
+func VerifSmartEnter(ed *Editor, buf tk.CodeBuffer) (after tk.CodeBuffer, committed bool) {
+	real := ed.app
+	ed.app = verifCommitRecorder{real, &committed}
+	defer func() { ed.app = real }()
+	codeArea, ok := focusedCodeArea(real)
+	if !ok {
+		panic("VerifSmartEnter: the focused widget is not a code area")
+	}
+	codeArea.MutateState(func(s *tk.CodeAreaState) { s.Buffer = buf })
+	smartEnter(ed)
+	return codeArea.CopyState().Buffer, committed
+}
